@@ -934,10 +934,18 @@ class Exec:
             if extra is not None: sol.add(extra)
             r = sol.check()
             s.last_model = sol.model() if r == z3.sat else None
+            res = 'sat' if r == z3.sat else ('unsat' if r == z3.unsat else 'unknown')
+            ctl = s.ctl
+            if ctl is not None and ctl.sample_dir and res != 'unknown' and ctl.sample_every and (s.queries + 1) % ctl.sample_every == 0:
+                try:
+                    with open(os.path.join(ctl.sample_dir, 'q_%d_%d_%d.smt2' % (os.getpid(), len(s.path), s.queries + 1)), 'w') as f:
+                        f.write('; expected: %s\n' % res)
+                        f.write(sol.to_smt2())
+                except Exception:
+                    pass
             sol.pop()
             dt = time.time() - t0
             s.queries += 1; s.solver_time += dt
-            res = 'sat' if r == z3.sat else ('unsat' if r == z3.unsat else 'unknown')
             if res == 'unknown': s.unknowns += 1
             return res
         sol = z3.Solver()
